@@ -9,7 +9,7 @@ from props.c13 import selftest_reject
 CLAUSES = {
     "C04": {"NonNeg", "BlockIssuance"},
     "C05": {"OnlySigner"},
-    "C06": {"NoDouble", "Consecutive", "EpochMatch"},
+    "C06": {"NoDouble", "Consecutive", "EpochMatch", "NonceRecorded"},
 }
 
 
